@@ -10,7 +10,7 @@ for l in open('/verif/properties.jsonl'):
 txt = json.dumps({k: p[k] for k in ('id', 'title', 'statement', 'quantifier', 'why_tests_cant', 'anchors')}, indent=1)
 print(f"""You are working on a scratch git worktree of the OpenMDAO Python framework at {wt} (a checkout of the project's current HEAD). Work ONLY inside {wt} and write your deliverables to {out} (create it). Never read, write or run anything in /repo or /verif.
 
-To run Python against this worktree use:  cd {wt} && PYTHONPATH={wt} /venv/bin/python ...   (check once that `import openmdao; openmdao.__file__` points into {wt}). Set OPENMDAO_REPORTS=0. There is no network. Run things from a temp cwd or clean up: tests leave *_out directories; delete them.
+To run Python against this worktree use:  cd {wt} && PYTHONPATH={wt} /venv/bin/python ...   (check once that `import openmdao; openmdao.__file__` points into {wt}). Set OPENMDAO_REPORTS=0. There is no network. Run things from a temp cwd or clean up: tests leave *_out directories inside the directory they run in: run them from inside your worktree and delete only those (never delete anything outside your worktree and your deliverables directory; in particular never run rm on /tmp/* patterns).
 
 Here is a semantic property that OpenMDAO is supposed to satisfy:
 
